@@ -44,7 +44,7 @@ theorem zip_rivals :
     (zipNode.children.takeWhile (fun x => !isNamed "xlsx" x)).map (·.info.name) = [] ∧
     (zipNode.children.takeWhile (fun x => !isNamed "docx" x)).map (·.info.name) = ["xlsx"] ∧
     (zipNode.children.takeWhile (fun x => !isNamed "pptx" x)).map (·.info.name) = ["xlsx", "docx"] ∧
-    (zipNode.children.takeWhile (fun x => !isNamed "jar" x)).map (·.info.name) = ["xlsx", "docx", "pptx", "epub", "apk"] := by
+    (zipNode.children.takeWhile (fun x => !isNamed "jar" x)).map (·.info.name) = ["xlsx", "docx", "pptx", "epub", "odt", "ods", "odp", "odg", "odf", "odc", "sxc", "apk"] := by
   refine ⟨by decide, by decide, by decide, by decide, by decide⟩
 
 /-- the `Zip` check (regenerated expression) accepts everything that starts with a local header -/
